@@ -40,7 +40,7 @@ MANIFEST = dict(
     ready=True)
 
 ASBUILT_FILE = os.path.join(core.VERIF, "spec", "asbuilt_groupB.json")
-VARIANTS = ["ChecksIndexSizes", "ChecksBlockSizes", "ChecksBackward", "ChecksReserved", "FirstHeaderStrict", "LaterHeaderStrict",
+VARIANTS = ["ChecksIndexUnpadded", "ChecksIndexUncompressed", "ChecksPadAtEof", "ChecksBlockSizes", "ChecksBackward", "ChecksReserved", "FirstHeaderStrict", "LaterHeaderStrict",
             "MtPrefixStrict"]
 
 
@@ -51,8 +51,8 @@ def asbuilt():
     return d
 
 
-def consts(fmt, nu, ns, variants):
-    c = {"Format": '"%s"' % fmt, "NUnits": str(nu), "NStreams": str(ns)}
+def consts(fmt, nu, ns, prof, variants):
+    c = {"Format": '"%s"' % fmt, "NUnits": str(nu), "NStreams": str(ns), "SizeProfile": '"%s"' % prof}
     for v in VARIANTS:
         c[v] = "TRUE" if variants[v] else "FALSE"
     return c
@@ -62,11 +62,31 @@ def consts(fmt, nu, ns, variants):
 CONTENT_SPEC = {1: ("text", 700), 2: ("mixed", 1301), 3: ("random", 402), 4: ("text", 903)}
 
 
+def same_csize_pair():
+    """two different contents of different length whose LZMA2 payloads have the same length"""
+    seen = {}
+    for n in range(300, 2000, 7):
+        for pat in (b"ab", b"cdx"):
+            d = pat * n
+            key = (len(F.lzma2_raw(d, 4096)), len(F.vli(len(d))))
+            if key in seen and seen[key][:2] != pat[:2] and len(seen[key]) != len(d):
+                return seen[key], d
+            seen.setdefault(key, d)
+    raise ToolError("no pair of contents with equal compressed size found")
+
+
 class Shape:
-    def __init__(self, fmt, nu, ns, seed, check):
-        self.fmt, self.nu, self.ns, self.check = fmt, nu, ns, check
+    def __init__(self, fmt, nu, ns, prof, seed, check):
+        self.fmt, self.nu, self.ns, self.check, self.prof = fmt, nu, ns, check, prof
         self.xz = fmt == "xz"
         self.content = {i: F.gen_data(c, n, seed + i) for i, (c, n) in CONTENT_SPEC.items()}
+        if prof == "same_usize":
+            # equal uncompressed size, different compressed size: only the unpadded size tells the blocks apart
+            self.content = {1: F.gen_data("text", 1000, seed), 2: F.gen_data("random", 1000, seed + 1),
+                            3: F.gen_data("mixed", 1000, seed + 2), 4: F.gen_data("zeros", 1000, seed + 3)}
+        elif prof == "same_csize":
+            a, b = same_csize_pair()
+            self.content = {1: a, 2: b, 3: a[:len(a) // 2] + b"!", 4: b[:len(b) // 2] + b"?"}
         if self.xz:
             recs = []
             for s in range(1, ns + 1):
@@ -273,6 +293,12 @@ class Shape:
         raws = [r.raw for r in recs]
         if t == "none":
             return self.base
+        if t == "cut":
+            raw = raws[i - 1]
+            n = len(raw) // 2 if c == "mid" else int(c)
+            if n >= len(raw) or (c == "mid" and n <= 5):
+                return None
+            return b"".join(raws[:i - 1]) + raw[:n]
         if t == "field":
             nr = self.damage(i - 1, c)
             if nr is None:
@@ -363,12 +389,14 @@ def lz_alternatives(shape_members, mutated, base):
 
 
 # --------------------------------------------------------------------------------------------- the check
-SHAPES_QUICK = [("xz", 2, 1), ("xz", 0, 1), ("xz", 1, 2), ("lzip", 1, 1), ("lzip", 2, 1), ("lzip_mt", 2, 1)]
-SHAPES_MORE = [("xz", 1, 1), ("lzip_mt", 1, 1), ("xz", 2, 2)]
+D = "distinct"
+SHAPES_QUICK = [("xz", 2, 1, D), ("xz", 2, 1, "same_usize"), ("xz", 2, 1, "same_csize"), ("xz", 0, 1, D), ("xz", 1, 2, D),
+                ("lzip", 1, 1, D), ("lzip", 2, 1, D), ("lzip_mt", 2, 1, D)]
+SHAPES_MORE = [("xz", 1, 1, D), ("lzip_mt", 1, 1, D), ("xz", 2, 2, D), ("xz", 2, 2, "same_usize")]
 
 
-def tlc_shape(fmt, nu, ns, variants, strict):
-    c = consts(fmt, nu, ns, {v: True for v in VARIANTS} if strict else variants)
+def tlc_shape(fmt, nu, ns, prof, variants, strict):
+    c = consts(fmt, nu, ns, prof, {v: True for v in VARIANTS} if strict else variants)
     inv = ("RejectsDamage", "IntactAccepted") if strict else ("IntactAccepted", "Export")
     d, mod, cfg = core.write_model("Corruption", c, invariants=inv)
     r = core.run_tlc(mod, cfg, workers=1, cwd=d, timeout=900)
@@ -384,8 +412,8 @@ def tlc_shape(fmt, nu, ns, variants, strict):
     return r, cases
 
 
-def trace_shape(fmt, nu, ns, variants, events):
-    c = consts(fmt, nu, ns, variants)
+def trace_shape(fmt, nu, ns, prof, variants, events):
+    c = consts(fmt, nu, ns, prof, variants)
     d, mod, cfg = core.write_model("Trace_Corruption", c, spec="TSpec", invariants=("Track", "Judge"), postcondition="Accepted")
     tp = os.path.join(d, "trace.ndjson")
     with open(tp, "w") as f:
@@ -435,15 +463,15 @@ def run(tier, replay=None):
         if len(cases) < 20:
             raise ToolError(f"Corruption {sh}: only {len(cases)} cases exported")
         all_cases[sh] = cases
-    ctx.cov["abstract_cases"] = {f"{a}-{b}u-{c}s": len(v) for (a, b, c), v in all_cases.items()}
-    predicted_bad = {f"{a}-{b}u-{c}s": [f"{x['t']}:{x['k']}:{x['c']}:{x['i']}" for x in v if not x["tolerated"]] for (a, b, c), v in all_cases.items()}
+    ctx.cov["abstract_cases"] = {f"{a}-{b}u-{c}s-{p_}": len(v) for (a, b, c, p_), v in all_cases.items()}
+    predicted_bad = {f"{a}-{b}u-{c}s-{p_}": [f"{x['t']}:{x['k']}:{x['c']}:{x['i']}" for x in v if not x["tolerated"]] for (a, b, c, p_), v in all_cases.items()}
     ctx.cov["as_built_model_predicts_intolerable"] = {k: v for k, v in predicted_bad.items() if v}
 
     # ---------------- stage 2: concretise and run
     jobs, meta, defs = [], [], []
     shape_objs = {}
     for si, sh in enumerate(shapes):
-        S = Shape(sh[0], sh[1], sh[2], ctx.seed % 997 + si, checks[si % 3])
+        S = Shape(sh[0], sh[1], sh[2], sh[3], ctx.seed % 997 + si, checks[si % 3])
         shape_objs[sh] = S
         # the forge is cross-checked against liblzma
         if S.xz and F.py_xz_decode(S.base) != S.original:
@@ -506,10 +534,10 @@ def run(tier, replay=None):
         for li, (e, case, b, res) in enumerate(evs, start=1):
             v = verdicts[li]
             n_judged += 1
-            classes.add((sh[0], sh[1], sh[2], case["t"], case["k"], case["c"], e["res"]))
+            classes.add((sh[0] + ":" + sh[3], sh[1], sh[2], case["t"], case["k"], case["c"], e["res"]))
             if not v["tol"]:
                 got = "the empty result" if (e["res"] == "ok" and not e["out"]) else f"units {e['out']}"
-                what = (f"{S.dec()['kind']} on {sh[0]} file ({sh[1]} units, {sh[2]} streams), alteration {case['t']} "
+                what = (f"{S.dec()['kind']} on {sh[0]} file ({sh[1]} units, {sh[2]} streams, sizes {sh[3]}), alteration {case['t']} "
                         f"{case['k']}[{case['i']}] {case['c']}: reader reports success with {got}, original {list(range(1, len(S.original) and (sh[1] * (sh[2] if S.xz else 1)) + 1))}")
                 ctx.violation(what, {"family": "structured", "dec": S.dec()["kind"], "t": case["t"], "k": case["k"], "c": case["c"],
                                      "outcome": "ok_empty" if not e["out"] else "ok_different"},
@@ -639,7 +667,7 @@ def run(tier, replay=None):
     for (sh, case, b) in meta[:3] + meta[len(meta) // 2:len(meta) // 2 + 2]:
         ctx.sample({"shape": list(sh), "case": {k: case[k] for k in ("t", "k", "i", "c", "res", "out")}, "bytes": len(b)})
     ctx.sample({k: v for k, v in bjobs[0].items() if k in ("id", "dec", "mutn")})
-    need = {("field", "err"), ("del", "err"), ("dup", "err"), ("swap", "err"), ("prefix", "err")}
+    need = {("field", "err"), ("del", "err"), ("dup", "err"), ("swap", "err"), ("prefix", "err"), ("cut", "err"), ("swapunits", "err")}
     seen = {(c[3], c[6]) for c in classes if len(c) == 7}
     if not need <= seen:
         raise ToolError(f"vacuous run: alteration classes never rejected by a reader: {need - seen}")
